@@ -1,5 +1,177 @@
-/- Driver for C19 (stub until the property's model is written). -/
+/- Driver for C19: real qmail-pop3d / qmail-popup runs vs the model `Nq.Pop3`; the oracle is the
+   RFC 1939 reference `Nq.Pop3Ref` evaluated on the implementation's transcript.
+   Input lines (see harness/c19_pop3d.c, harness/c19_popup.c):
+     P <uid> <havedir> <now> <files> <events> <fd1> <fd2> <code> <maildir after> <chdirs>
+     U <pid> <now> <host> <child> <input> <fd1> <fd3|none> <code> -/
 import Drv.Util
-open Drv
-def handle (st : Stats) (_line : String) : IO Stats := return { st with cases := st.cases + 1 }
+import Nq.Pop3
+import Nq.Spec.Pop3Ref
+
+open Nq Nq.Pop3 Drv
+
+def parseFiles (s : String) : Option (List File) :=
+  if s == "-" then some [] else
+  (s.splitOn ",").mapM (fun e =>
+    match e.splitOn ":" with
+    | [p, d, mt, atm] => do
+      let p ← unhex p; let d ← unhex d
+      let mt ← mt.toNat?; let atm ← atm.toNat?
+      pure { path := p, data := d, mtime := mt, atime := atm }
+    | [p, d] => do
+      let p ← unhex p; let d ← unhex d
+      pure { path := p, data := d, mtime := 0, atime := 0 }
+    | _ => none)
+
+def parseEvents (s : String) : Option (List Ev) :=
+  if s == "-" then some [] else
+  (s.splitOn ",").mapM (fun e =>
+    match e.toList with
+    | 'd' :: r => (unhex (String.ofList r)).map Ev.data
+    | 'v' :: r => (unhex (String.ofList r)).map Ev.vanish
+    | _ => none)
+
+def sortPairs (l : List (Bytes × Bytes)) : List (Bytes × Bytes) :=
+  (l.toArray.qsort (fun a b => a.1 < b.1)).toList
+
+def fsPairs (fs : List File) : List (Bytes × Bytes) := sortPairs (fs.map (fun f => (f.path, f.data)))
+
+/-- events → what the reference sees: complete command lines and removals, in order -/
+def toREv (evs : List Ev) : List Pop3Ref.REv :=
+  let rec go : List Ev → Bytes → List Pop3Ref.REv → List Pop3Ref.REv
+    | [], _, acc => acc.reverse
+    | .vanish p :: rest, cur, acc => go rest cur (.vanish p :: acc)
+    | .data b :: rest, cur, acc =>
+      let (cur', acc') := b.foldl (fun (ca : Bytes × List Pop3Ref.REv) c =>
+        if c == LF then ([], .line ca.1.reverse :: ca.2) else (c :: ca.1, ca.2)) (cur, acc)
+      go rest cur' acc'
+  go evs [] []
+
+def hasHuge (evs : List Ev) : Bool :=
+  let all := evs.flatMap (fun e => match e with | .data b => b | _ => [])
+  let rec go : Bytes → Nat → Bool
+    | [], n => n ≥ 20
+    | c :: r, n => if isDigit c then go r (n + 1) else (n ≥ 20 || go r 0)
+  go all 0
+
+/-- the orderings the property allows: the messages found at start-up, oldest first,
+equal modification times in any order -/
+def admissible (now : Nat) (fs : List File) : List (List File) :=
+  let elig := fs.filter (fun f => (f.path.take 4 == newSl || f.path.take 4 == curSl) &&
+    (f.path.drop 4).head? != some DOT && f.mtime < now)
+  let sorted := (elig.toArray.qsort (fun a b => a.mtime < b.mtime)).toList
+  -- groups of equal mtime
+  let groups := sorted.foldr (fun f (gs : List (List File)) => match gs with
+    | (g :: gt) :: rest => if g.mtime == f.mtime then (f :: g :: gt) :: rest else [f] :: (g :: gt) :: rest
+    | _ => [[f]]) []
+  let combos := groups.foldr (fun g (acc : List (List File)) =>
+    let ps := (Pop3Ref.perms g).take 24
+    (ps.flatMap (fun p => acc.map (fun a => p ++ a))).take 200) [[]]
+  combos
+
+def toR (f : File) : Pop3Ref.RMsg := { path := f.path, data := f.data }
+
+def handleP (st : Stats) (line : String) (fs : List String) : IO Stats := do
+  match fs with
+  | [uidS, hdS, nowS, filesS, evS, o1, o2, codeS, afterS, chS] =>
+    match uidS.toNat?, nowS.toNat?, parseFiles filesS, parseEvents evS, unhex o1, unhex o2, codeS.toInt?, parseFiles afterS with
+    | some uid, some now, some files, some evs, some out1, some out2, some code, some after =>
+      let h := hashBytes (line.toUTF8.toList.take 4096)
+      let fresh := !st.seen.contains h
+      let havedir := hdS == "1"
+      let mut st := { st with cases := st.cases + 1, seen := st.seen.insert h }
+      st := st.bump (if uid == 0 then "root" else if !havedir then "nomaildir" else s!"msgs{min (getlist now (cleanTmp now files)).length 6}")
+      -- (1) model vs implementation
+      let r := Pop3.main uid havedir now files evs
+      let agree := r.out == out1 && r.err == out2 && Int.ofNat r.code == code && fsPairs r.fs == fsPairs after
+      if !agree && st.disagree < 40 then
+        IO.println s!"DISAGREE in={evS} files={filesS} uid={uid} havedir={hdS} impl_out={o1} impl_err={o2} impl_code={code} impl_after={afterS} model_out={hex r.out} model_code={r.code} model_after={",".intercalate ((fsPairs r.fs).map (fun (p, d) => hex p ++ ":" ++ hex d))}"
+      if !agree then st := { st with disagree := st.disagree + 1 }
+      -- (2) the property on the implementation's behaviour
+      let fs0 := fsPairs files
+      let unchanged := fsPairs after == fs0
+      let mut ok := true
+      let mut why := ""
+      if uid == 0 then
+        ok := code == 1 && out1.isEmpty && unchanged && chS == "0"
+        why := "root"
+      else if !havedir then
+        ok := unchanged && (match Pop3Ref.readLine out1 with | some (l, r) => Pop3Ref.isErr l && r.isEmpty | none => false)
+        why := "nomaildir"
+      else
+        let nul := evs.any (fun e => match e with | .data b => b.contains NUL | _ => false)
+        if nul then st := st.bump "oracle_skipped_nul"
+        else
+          -- documented maintenance: tmp/ files not accessed for 36 hours are removed at start-up
+          let fs1 := files.filter (fun f => !(f.path.take 4 == tmpSl && (f.path.drop 4).head? != some DOT && now > f.atime + 129600))
+          let revs := toREv evs
+          let cands := admissible now fs1
+          ok := cands.any (fun numbering =>
+            Pop3Ref.sessionOk (numbering.map toR) (fs1.map toR) revs out1 (after.map toR))
+          ok := ok && code == 0 && out2.isEmpty
+          -- classification only: is the failure explained by numbers being taken modulo 2^64?
+          let lenient := !ok && hasHuge evs && code == 0 && out2.isEmpty && cands.any (fun numbering =>
+            Pop3Ref.sessionOk (numbering.map toR) (fs1.map toR) revs out1 (after.map toR) (modulus := 18446744073709551616))
+          why := if lenient then "wrap" else "session"
+      if !ok then
+        -- at most 25 reports of each kind per driver process (enumeration order: shortest first)
+        let key := "oracle_" ++ why
+        let seenN : Nat := ((st.counters.find? (fun kv => kv.1 == key)).map (fun kv => kv.2)).getD 0
+        if seenN < 25 then
+          IO.println s!"ORACLE kind={why} in={evS} files={filesS} uid={uid} havedir={hdS} out={o1} code={code} after={afterS}"
+        st := { st with oracle := st.oracle + 1 }
+        st := st.bump key
+      let nontriv := out1.length > 12 && evs.length ≥ 2
+      if fresh && nontriv then st := { st with nontrivial := st.nontrivial + 1 }
+      if fresh && nontriv && st.samples < 3 && fsPairs after != fs0 && files.length ≥ 2 then
+        IO.println s!"SAMPLE pop3d events={evS} files={filesS} out={o1} after={afterS}"
+        st := { st with samples := st.samples + 1 }
+      return st
+    | _, _, _, _, _, _, _, _ => IO.println s!"DISAGREE unparsable line {line.take 300}"; return { st with disagree := st.disagree + 1 }
+  | _ => IO.println s!"DISAGREE unparsable line {line.take 300}"; return { st with disagree := st.disagree + 1 }
+
+def splitLines (b : Bytes) : List Bytes :=
+  let (_, acc) := b.foldl (fun (ca : Bytes × List Bytes) c =>
+    if c == LF then ([], ca.1.reverse :: ca.2) else (c :: ca.1, ca.2)) ([], [])
+  acc.reverse
+
+def handleU (st : Stats) (line : String) (fs : List String) : IO Stats := do
+  match fs with
+  | [pidS, nowS, hostS, childS, inS, o1, fd3S, codeS] =>
+    match pidS.toNat?, nowS.toNat?, unhex hostS, unhex inS, unhex o1, codeS.toInt? with
+    | some pid, some now, some host, some inp, some out1, some code =>
+      let fd3 : Option Bytes := if fd3S == "none" then none else unhex fd3S
+      let child : Popup.Child := match childS.toList with
+        | 'e' :: r => .exited ((String.ofList r).toNat?.getD 0)
+        | _ => .crashed
+      let h := hashBytes (line.toUTF8.toList.take 4096)
+      let fresh := !st.seen.contains h
+      let mut st := { st with cases := st.cases + 1, seen := st.seen.insert h }
+      st := st.bump (if fd3.isSome then "popup_auth" else "popup_noauth")
+      let r := Popup.pmain pid now host child inp
+      let agree := r.out == out1 && r.fd3 == fd3 && Int.ofNat r.code == code
+      if !agree then
+        IO.println s!"DISAGREE in={inS} popup host={hostS} child={childS} impl_out={o1} impl_fd3={fd3S} impl_code={code} model_out={hex r.out} model_fd3={match r.fd3 with | some b => hex b | none => "none"} model_code={r.code}"
+        st := { st with disagree := st.disagree + 1 }
+      let childOk := match child with | .exited 0 => true | _ => false
+      if inp.contains NUL then st := st.bump "oracle_skipped_nul"
+      else
+        let ok := Pop3Ref.popupOk host (splitLines inp) childOk out1 fd3 && code != 0
+        if !ok then
+          IO.println s!"ORACLE kind=popup in={inS} host={hostS} child={childS} out={o1} fd3={fd3S} code={code}"
+          st := { st with oracle := st.oracle + 1 }
+      if fresh && fd3.isSome then st := { st with nontrivial := st.nontrivial + 1 }
+      if fresh && fd3.isSome && st.samples < 4 && inp.length > 20 then
+        IO.println s!"SAMPLE popup in={inS} out={o1} fd3={fd3S}"
+        st := { st with samples := st.samples + 1 }
+      return st
+    | _, _, _, _, _, _ => IO.println s!"DISAGREE unparsable line {line.take 300}"; return { st with disagree := st.disagree + 1 }
+  | _ => IO.println s!"DISAGREE unparsable line {line.take 300}"; return { st with disagree := st.disagree + 1 }
+
+def handle (st : Stats) (line : String) : IO Stats := do
+  match fields line with
+  | "P" :: rest => handleP st line rest
+  | "U" :: rest => handleU st line rest
+  | [] => return st
+  | _ => IO.println s!"DISAGREE unparsable line {line.take 300}"; return { st with disagree := st.disagree + 1 }
+
 def main : IO Unit := runDriver handle
